@@ -77,6 +77,13 @@ CHECKS = {
              'thorough': {'K': 1, 'lens_by_tag': [['SPSSODescriptors', [1, 0, 2]], ['AssertionConsumerServices', [1, 0, 2]]]}},
         ],
     },
+    'C16': {
+        'level_text': 'path exploration + z3 decide, over seven token provenances and arbitrary claims, issuer/audience strings and clock, that the session codec yields a session only for a token under this SP key and algorithm with the session marker, matching issuer and audience and a validity period containing now; replayed natively with real signed JWTs.',
+        'level_note': 'real JWTSessionCodec.Decode/New and golang-jwt ParseWithClaims (ValidMethods loop, key function, StandardClaims.Valid, VerifyAudience/VerifyIssuer) executed from SSA. Token serialisation and signature verification are contract stubs: a token is a string with a provenance (signing key, algorithm, claims); Verify succeeds only under the public half of the signing key with the same algorithm. Provenances: garbage, this key+alg, other key, alg none, HS256 over public bytes, RS384 with this key, tracking-token claims. Outside: RS256/ES256 themselves, JSON encoding of claims.',
+        'harnesses': [
+            {'name': 'Harness_C16_decode', 'pkg': 'samlsp', 'replay': 'direct', 'must_reach': ['session', 'no-session'], 'opts': {'K': 1}},
+        ],
+    },
     'C18': {
         'level_text': 'path exploration + z3 decide that both logout entry points report valid only for a rooted document whose root carries a trusted signature and whose Destination, Issuer, Status and freshness are right, and that such a response is accepted; counterexamples replayed natively on real signed XML.',
         'level_note': 'real ValidateLogoutResponseForm / Redirect, validateLogoutResponse, validateSignature and the helpers of the response flow executed from SSA on a materialised LogoutResponse (arbitrary fields, Issuer nil-able, unsigned / trusted / untrusted signature, or no root element). The library reads time.Now() here: the harness clock and the library clock are assumed to be within one second of each other. base64/flate are contract stubs (inverse of the encoder used by the harness). goxmldsig Validate as in C01.',
